@@ -170,7 +170,8 @@ def static_master(fam, idx, sparse=False):
     fb.setupPost(underlinePosition=M(-100, 20), underlineThickness=M(50, 21))
     font = fb.font
     if not (sparse and content == "sparsel"):
-        fea = _fea(fam, spec, nloc, odd=bool(sum(idx) % 2))
+        # "kernx": masters at lattice index 1 or 2 (mod 4, summed) lack some pairs
+        fea = _fea(fam, spec, nloc, odd=sum(idx) % 4 in (1, 2))
         if fea:
             from fontTools.feaLib.builder import addOpenTypeFeaturesFromString
 
